@@ -856,7 +856,7 @@ func TestC05(t *testing.T) {
 	}
 	r := kit.Start(t, "C05", "exploration")
 	defer r.Finish()
-	r.Rule("all 16 message kinds with boundary-biased field values: WriteMessage→ReadMessage equality (field-wise); retention: decoded messages held by the caller are re-compared after later reads (the next messages, the corrupted frames, all remaining frames of 2-31-frame streams); the streams are delivered through five io.Reader shapes (whole buffer, random 1-40-byte chunks, one byte per Read, net.Pipe segments, 16-byte bufio over chunks); from every honest frame: single-byte corruptions (header: every byte × {+1, ^0x80, random} or all 255 values in thorough; payload: every byte if <=512 else sampled), truncations, length games, wrong magics; hand-built frames: unknown commands, payload at / above MAX_PAYLOAD_LEN; hostile payloads behind honest headers (mutations, count fields rewritten to boundary/huge values) and random streams decoded in a child process under ulimit -v; distinct = (kind, payload digest) or (kind, corruption class, demanded verdict, observed verdict) or (mutation label, outcome, panic site)")
+	r.Rule("all 16 message kinds with boundary-biased field values: WriteMessage→ReadMessage equality (field-wise); retention: decoded messages held by the caller are re-compared after later reads (the next messages, the corrupted frames, all remaining frames of 2-31-frame streams); the streams are written frame by frame into fresh sinks or all into one shared sink and delivered through five io.Reader shapes (whole buffer, random 1-40-byte chunks, one byte per Read, net.Pipe segments, 16-byte bufio over chunks); from every honest frame: single-byte corruptions (header: every byte × {+1, ^0x80, random} or all 255 values in thorough; payload: every byte if <=512 else sampled), truncations, length games, wrong magics; hand-built frames: unknown commands, payload at / above MAX_PAYLOAD_LEN; hostile payloads behind honest headers (mutations, count fields rewritten to boundary/huge values) and random streams decoded in a child process under ulimit -v; distinct = (kind, payload digest) or (kind, corruption class, demanded verdict, observed verdict) or (mutation label, outcome, panic site)")
 	r.Assume("rejection is demanded exactly when the checker, looking at the corrupted frame alone, finds: magic != network magic, length > MAX_PAYLOAD_LEN, fewer payload bytes than announced, sha256d(payload)[:4] != header checksum, or a command field that is not one of the 16 NUL-padded command names; otherwise (e.g. ping↔pong) nothing is asserted")
 	r.Assume("a payload of exactly MAX_PAYLOAD_LEN bytes is within the limit (must be accepted); Addr / Inv messages are generated with at most MAX_ADDR_NODE_CNT / MAX_INV_BLK_CNT entries (longer lists are truncated by design)")
 	r.Assume(fmt.Sprintf("hostile streams are read with the address space limited to %d KiB; a process death is reported like a panic", c02.VLimitKB))
@@ -943,6 +943,26 @@ func TestC05(t *testing.T) {
 			want = append(want, f)
 			stream = append(stream, f.frame...)
 		}
+		// every other stream is produced the way a sender batches messages: all k messages are
+		// written one after the other into ONE sink (the frames above were each written into a fresh one)
+		writer := "fresh-sink-per-frame"
+		if i%2 == 1 {
+			writer = "one-shared-sink"
+			sink := common.NewZeroCopySink(nil)
+			wrote := true
+			for j := range want {
+				var err error
+				if p := kit.Catch(func() { err = mt.WriteMessage(sink, want[j].g.msg) }); p != nil || err != nil {
+					m.violationOnce("honest-message-write-error:shared-sink:"+want[j].g.kind, fmt.Sprintf("message %d of %d written into one sink: err=%v panic=%v", j, k, err, p), nil)
+					wrote = false
+					break
+				}
+			}
+			if !wrote {
+				continue
+			}
+			stream = append([]byte{}, sink.Bytes()...)
+		}
 		// the same byte stream is delivered through one of five io.Reader shapes: ReadMessage takes an
 		// io.Reader, and a reader may return fewer bytes than asked for (a TCP connection does)
 		base := bytes.NewReader(stream)
@@ -954,7 +974,7 @@ func TestC05(t *testing.T) {
 			var msg mt.Message
 			var err error
 			if p := kit.Catch(func() { msg, _, err = mt.ReadMessage(rd) }); p != nil || err != nil || msg == nil {
-				m.violationOnce("stream-frame-rejected:"+mode, fmt.Sprintf("honest frame %d of %d (%s) read through a %s reader: err=%v panic=%v", j, k, want[j].g.kind, mode, err, p), kit.Hex(clip(stream, 8192)))
+				m.violationOnce("stream-frame-rejected:"+mode+":"+writer, fmt.Sprintf("honest frame %d of %d (%s, %s) read through a %s reader: err=%v panic=%v", j, k, want[j].g.kind, writer, mode, err, p), kit.Hex(clip(stream, 8192)))
 				okAll = false
 				break
 			}
@@ -969,9 +989,10 @@ func TestC05(t *testing.T) {
 			} else if same {
 				r.Count("streams_ok", 1)
 				r.Count("streams_ok_"+mode, 1)
+				r.Count("streams_ok_"+writer, 1)
 				r.Count("stream_frames_retained", k)
 			}
-			r.Distinct("stream", mode, k, want[0].g.kind, want[k-1].g.kind, len(stream))
+			r.Distinct("stream", mode, writer, k, want[0].g.kind, want[k-1].g.kind, len(stream))
 		}
 		finish()
 		r.Eval(1)
@@ -979,6 +1000,8 @@ func TestC05(t *testing.T) {
 	for _, mode := range readerModes {
 		r.Require("streams_ok_"+mode, nStreams/len(readerModes)-1)
 	}
+	r.Require("streams_ok_one-shared-sink", nStreams/2-1)
+	r.Require("streams_ok_fresh-sink-per-frame", nStreams/2-1)
 
 	// unknown commands behind otherwise perfect headers
 	ping := gen(rng, pc.PING_TYPE, m.pool)
